@@ -2,4 +2,8 @@
 EXTENDS MC_Hexary, Json
 CONSTANT Depth
 Emit == (Len(hist) = Depth) => PrintT(<<"B", ToJson(hist)>>)
+\* directed alphabet: add one or two hashes of either version, rewind by one or two, read the header (and nothing else)
+DirNext == \/ \E v \in Vals, n \in {1, 2} : Can /\ Add(v, n)
+           \/ \E d \in {1, 2} : Can /\ acc.len - d >= 1 /\ SetLen(acc.len - d)
+           \/ Can /\ HeaderRead
 ====
